@@ -271,7 +271,15 @@ async fn table_a(mon: &Monitor, rng: &mut Rng, tok: &mut u64) {
                     nodes: vec![DHTNode { peer_id: pl.token.clone(), address: String::new(), distance: None, reliability: 1.0, cached_dht_key: None }],
                 })
             };
-            let frame = dht_response_frame(&sender_hex, &id, &source, payload.clone(), result, DhtMessageType::Response);
+            // the strongest impostor names the contacted peer inside the payload (message source and
+            // wire 'from'); only the authenticated connection it arrives on gives it away
+            let claimed_hex = if matches!(pl.act, Act::WrongSender | Act::Stranger) && rng.chance(0.5) {
+                mon.count("A.adversarial.claims-contacted-peer-in-payload", 1);
+                right.hex.clone()
+            } else {
+                sender_hex.clone()
+            };
+            let frame = dht_response_frame(&claimed_hex, &id, &source, payload.clone(), result, DhtMessageType::Response);
             mon.count(&format!("A.adversarial.{:?}", pl.act), 1);
             hub.inject(sender_tid, &x.tid_hex, frame, pl.at);
         }
@@ -766,13 +774,121 @@ fn realtime_leak_lane(mon: &Monitor, seed: u64) {
     });
 }
 
+// ------------------------------------------------------------------ real-time lane: a live request and another request's sweep
+/// Table A ages its entries with the real clock from BEFORE the send. A request whose send was slow
+/// (congested link) is legitimately pending until send-done + timeout; an unrelated request started
+/// in that window runs the expiry sweep. The live request must still end with its reply or its
+/// timeout - never with an error manufactured by the other request.
+fn realtime_live_sweep_lane(mon: &Monitor, seed: u64) {
+    let rt = tokio::runtime::Builder::new_multi_thread().worker_threads(4).enable_all().build().expect("rt");
+    rt.block_on(async {
+        let worlds = mon.by_tier(4u64, 12);
+        let mut hs = Vec::new();
+        for wi in 0..worlds {
+            hs.push(async move {
+                let mut rng = Rng::new(vkit::splitmix(seed, 0x51EE9 + wi));
+                let hub = Hub::new(rng.next_u64());
+                let to = Duration::from_millis(1500);
+                let stall = Duration::from_millis(rng.range(300, 700));
+                let cfg = NodeCfg { request_timeout: to, connection_timeout: Duration::from_millis(500), ..Default::default() };
+                let Ok(x) = spawn_node(&hub, rng.arr32(), sim_addr(0), &cfg).await else { return };
+                let (ta, tb) = (rng.arr32(), rng.arr32());
+                let (aa, ab) = (sim_addr(1), sim_addr(2));
+                let mut rxa = hub.register_puppet(ta, aa);
+                let _rxb = hub.register_puppet(tb, ab);
+                if x.mgr.connect_to_peer(&aa.to_string()).await.is_err() || x.mgr.connect_to_peer(&ab.to_string()).await.is_err() {
+                    return;
+                }
+                hub.set_fault(&x.tid_hex, FaultPlan { send_stall: stall, ..Default::default() });
+                let (ha, hb) = (hex::encode(ta), hex::encode(tb));
+                let key = rng.arr32();
+                let t0 = std::time::Instant::now();
+                let m1 = x.mgr.clone();
+                let pa = ha.clone();
+                let r1 = tokio::spawn(async move {
+                    let r = m1.send_request(&pa, DhtNetworkOperation::FindNode { key }).await;
+                    (r, std::time::Instant::now())
+                });
+                // the request frame reaches the puppet when the slow send completes
+                let mut seen: Option<(String, DhtNetworkOperation, String)> = None;
+                let mut send_done = Duration::ZERO;
+                while t0.elapsed() < to {
+                    if let Ok((_f, frame)) = rxa.try_recv() {
+                        if let (_, _, Some(m)) = summarize(&frame) {
+                            seen = Some((m.message_id.clone(), m.payload.clone(), m.source.clone()));
+                            send_done = t0.elapsed();
+                            break;
+                        }
+                    }
+                    tokio::time::sleep(Duration::from_millis(5)).await;
+                }
+                let Some((mid, payload, source)) = seen else {
+                    mon.count("A.live-sweep.skipped.request-frame-not-observed", 1);
+                    return;
+                };
+                // an unrelated request inside the live window (after one timeout since R1 was issued)
+                let r2_at = to + Duration::from_millis(rng.range(60, 250));
+                tokio::time::sleep(r2_at.saturating_sub(t0.elapsed())).await;
+                let r2_age = t0.elapsed();
+                let m2 = x.mgr.clone();
+                let r2 = tokio::spawn(async move { m2.send_request(&hb, DhtNetworkOperation::Ping).await });
+                // the contacted peer's genuine reply, still inside R1's window (send-done + timeout)
+                let token = format!("tok-live-{wi}");
+                let reply_in = Duration::from_millis(rng.range(40, 120));
+                let frame = dht_response_frame(
+                    &ha,
+                    &mid,
+                    &source,
+                    payload,
+                    Some(DhtNetworkResult::NodesFound { key, nodes: vec![DHTNode { peer_id: token.clone(), address: String::new(), distance: None, reliability: 1.0, cached_dht_key: None }] }),
+                    DhtMessageType::Response,
+                );
+                hub.inject(ta, &x.tid_hex, frame, reply_in);
+                let out = tokio::time::timeout(Duration::from_secs(20), r1).await;
+                let _ = tokio::time::timeout(Duration::from_secs(20), r2).await;
+                mon.eval();
+                mon.count("A.live-sweep.worlds", 1);
+                // judged only when the machine kept the schedule: the send finished well inside one timeout and
+                // the second request started well before two (so no entry of a live request can look expired)
+                let on_schedule = send_done + Duration::from_millis(300) < to && r2_age + Duration::from_millis(400) < to * 2;
+                if !on_schedule {
+                    mon.count("A.live-sweep.skipped.machine-too-slow", 1);
+                } else if let Ok(Ok((res, done_at))) = out {
+                    mon.case(("A-live-sweep", (stall.as_millis() / 100) as u64, (r2_age.as_millis() / 100) as u64));
+                    let ended = done_at.duration_since(t0);
+                    let kind = match &res {
+                        Ok(DhtNetworkResult::NodesFound { nodes, .. }) if nodes.first().is_some_and(|n| n.peer_id == token) => "reply",
+                        Ok(_) => "other-result",
+                        Err(e) if e.to_string().to_lowercase().contains("timeout") || e.to_string().to_lowercase().contains("timed out") => "timeout",
+                        Err(_) => "error",
+                    };
+                    mon.count(&format!("A.live-sweep.outcome.{kind}"), 1);
+                    if kind == "error" || kind == "other-result" {
+                        mon.violation(
+                            "A/live-request-ended-by-another-requests-sweep",
+                            json!({"send_took_ms": send_done.as_millis() as u64, "timeout_ms": to.as_millis() as u64, "other_request_started_at_ms": r2_age.as_millis() as u64,
+                                   "ended_at_ms": ended.as_millis() as u64, "result": format!("{:?}", res.as_ref().map(|_| "ok").map_err(|e| e.to_string()))}),
+                        );
+                    }
+                } else {
+                    mon.violation("A/request-never-completed", json!({"lane": "live-sweep"}));
+                }
+                let _ = tokio::time::timeout(Duration::from_secs(20), x.mgr.stop()).await;
+                let _ = tokio::time::timeout(Duration::from_secs(20), x.transport.stop()).await;
+            });
+        }
+        futures::future::join_all(hs).await;
+    });
+}
+
 fn main() {
     let mon = Monitor::new("C04", "exploration");
     mon.set_rule("case = one request life-cycle in one of three pending tables (A: DHT RPC, B: /rr/ request-response, C: core-engine retrieve) with a seeded adversarial delivery plan (wrong sender, stranger, unknown/replayed id, duplicate, late, result-less, dropped future); non-trivial when at least one adversarial frame or a cancellation is aimed at it; distinct by (table, adversarial classes, cancellation, outcome) plus leak/cap observations");
     mon.assume("in-memory link below TransportHandle, paused clock; every event of a request sits on its own 4 ms slot (tokio timers resolve 1 ms) and at least 12 ms away from the request timeout, so delivery order is unambiguous");
     mon.assume("table C has no notion of a sender, so 'from the contacted peer' is not judged there; for C any in-time reply carrying the request id may win");
     mon.assume("table A entries of dropped futures are aged by std::time::Instant: that sub-check runs in a real-time lane (request timeout 60 ms, wait 2x+400 ms, one trigger request)");
-    let per_shard = mon.by_tier(120u64, 3000);
+    mon.assume("live-sweep lane (real time): request timeout 1.5 s, send 0.3-0.7 s, a second request 60-250 ms after one timeout; judged only when the machine kept that schedule (send done 300 ms inside one timeout, second request 400 ms inside two)");
+    let per_shard = mon.by_tier(400u64, 3000);
     vkit::run_shards(mon.shards(), mon.seed, |i, mut rng| {
         let mut tok = (i as u64) << 40;
         for k in 0..per_shard {
@@ -789,5 +905,6 @@ fn main() {
         }
     });
     realtime_leak_lane(&mon, mon.seed);
+    realtime_live_sweep_lane(&mon, mon.seed);
     mon.finish();
 }
